@@ -70,6 +70,10 @@ func c18Jobs(tier string) []Job {
 		jobs = append(jobs, Job{Name: "discarded-tx-non-interference @" + st, Run: func(r *Run) { c18NonInterference(r, st) }})
 	}
 	jobs = append(jobs, Job{Name: "repeat-and-after-unrelated", Run: c18Repeat})
+	for _, shared := range []bool{false, true} {
+		shared := shared
+		jobs = append(jobs, Job{Name: fmt.Sprintf("schedules-registry-keys shared=%v", shared), Run: func(r *Run) { c18RegistrySchedules(r, shared) }})
+	}
 	jobs = append(jobs, Job{Name: "repeat-rejected-requests-free-running", Run: c18RejectedRepeat})
 	jobs = append(jobs, Job{Name: "race-pass", Run: c18RacePass})
 	jobs = append(jobs, Job{Name: "ast-scan", Run: c18AST})
@@ -362,7 +366,7 @@ func c18Repeat(r *Run) {
 // RaceBodies is what `cctpmc racebodies` runs inside the -race binary.
 func RaceBodies() int {
 	scn := c18Scenario()
-	hs := c18Histories()
+	hs := append(c18Histories(), c18RegistryHistories()...)
 	ref := make([][]c18Obs, len(hs))
 	for i, h := range hs {
 		ref[i] = c18Solo(scn, h)
@@ -387,26 +391,26 @@ func RaceBodies() int {
 		}
 	}
 	// separate keepers
-	for g := 0; g < 8; g++ {
+	for g := 0; g < 12; g++ {
 		wg.Add(1)
 		go body(func() *World {
 			w := NewPlainWorld(KindIAVL)
 			w.InitLedger(scn.Ledger)
 			w.InitCCTP(scn.Genesis)
 			return w
-		}, g%3)
+		}, g%len(hs))
 	}
 	// one cctp keeper (and msg server) shared by all instances; every instance has its own
 	// stores and its own auth/bank/fiattokenfactory keepers (see SharedCCTP)
 	sc := NewSharedCCTP()
-	for g := 0; g < 8; g++ {
+	for g := 0; g < 12; g++ {
 		wg.Add(1)
 		go body(func() *World {
 			w := sc.NewInstance(KindIAVL)
 			w.InitLedger(scn.Ledger)
 			w.InitCCTP(scn.Genesis)
 			return w
-		}, g%3)
+		}, g%len(hs))
 	}
 	wg.Wait()
 	fmt.Printf("RACEPASS-DONE diverged=%d\n", bad)
@@ -780,4 +784,99 @@ func cut(s string, n int) string {
 		return s[:n] + "..."
 	}
 	return s
+}
+
+// c18RegistrySchedules: three instances write short keys of the SAME collections (burn limits,
+// attesters, token pairs, messengers) -- all interleavings at transaction boundaries, each instance
+// compared step by step with its solo run.  (Keys built by appending to a shared prefix, or any
+// other buffer shared between keeper instances, corrupt the neighbour's store here.)
+func c18RegistrySchedules(r *Run, shared bool) {
+	scn := c18Scenario()
+	hs := c18RegistryHistories()
+	solo := make([][]c18Obs, len(hs))
+	for i, h := range hs {
+		solo[i] = c18Solo(scn, h)
+	}
+	left := make([]int, len(hs))
+	total := 0
+	for i, h := range hs {
+		left[i] = len(h)
+		total += len(h)
+	}
+	sched := make([]int, 0, total)
+	n := 0
+	var rec func()
+	run := func() {
+		base := scn.Build(KindIAVL)
+		ws := []*World{base}
+		for i := 1; i < len(hs); i++ {
+			if shared {
+				w := NewSharedWorld(base)
+				w.InitLedger(scn.Ledger)
+				w.InitCCTP(scn.Genesis)
+				ws = append(ws, w)
+			} else {
+				ws = append(ws, scn.Build(KindIAVL))
+			}
+		}
+		pos := make([]int, len(hs))
+		for si, inst := range sched {
+			a := hs[inst][pos[inst]]
+			got, want := ws[inst].applyRaw(a), solo[inst][pos[inst]]
+			pos[inst]++
+			r.Transitions++
+			if got != want {
+				rp := Replay{Kind: "schedule", Ledger: &scn.Ledger, Genesis: GenesisJSON(scn.Genesis),
+					Data:     map[string]any{"schedule": append([]int{}, sched...), "shared_keeper": shared, "job": "registry-keys", "diverged_at": si},
+					Expected: fmt.Sprintf("%+v", want), Observed: fmt.Sprintf("%+v", got)}
+				r.Violate("C18 instance diverged from its solo run (registry keys)",
+					fmt.Sprintf("shared_keeper=%v schedule=%v step %d (instance %d: %s)\n solo:        %+v\n interleaved: %+v", shared, sched, si, inst, a.Desc, want, got), rp)
+				return
+			}
+		}
+		r.Class("schedule-ok")
+		r.Distinct(fmt.Sprintf("registry|%v|%v", shared, sched))
+	}
+	rec = func() {
+		if len(r.Violations) > 3 {
+			return
+		}
+		if len(sched) == total {
+			n++
+			run()
+			return
+		}
+		for i := range hs {
+			if left[i] > 0 {
+				left[i]--
+				sched = append(sched, i)
+				rec()
+				sched = sched[:len(sched)-1]
+				left[i]++
+			}
+		}
+	}
+	rec()
+	r.States += n
+}
+
+// c18RegistryHistories: three histories writing short keys of the same collections.
+func c18RegistryHistories() [][]Action {
+	return [][]Action{
+		{
+			Act("setMaxBurnAmountPerMessage(uusdc,77) by A3", &cctptypes.MsgSetMaxBurnAmountPerMessage{From: TokenCtl.Str, LocalToken: "uusdc", Amount: math.NewInt(77)}),
+			Act("enableAttester(\"04\") by A1", &cctptypes.MsgEnableAttester{From: AttMgr.Str, Attester: "04"}),
+			MkDeposit(UserA.Str, math.NewInt(50), DomEth, distinct32(0x24), "uusdc"),
+		},
+		{
+			Act("setMaxBurnAmountPerMessage(ueurc,5) by A3", &cctptypes.MsgSetMaxBurnAmountPerMessage{From: TokenCtl.Str, LocalToken: "ueurc", Amount: math.NewInt(5)}),
+			Act("enableAttester(\"05\") by A1", &cctptypes.MsgEnableAttester{From: AttMgr.Str, Attester: "05"}),
+			Act("addRemoteTokenMessenger(7) by A0", &cctptypes.MsgAddRemoteTokenMessenger{From: Owner.Str, DomainId: 7, Address: distinct32(0xE0)}),
+		},
+		{
+			Act("setMaxBurnAmountPerMessage(uatom,6) by A3", &cctptypes.MsgSetMaxBurnAmountPerMessage{From: TokenCtl.Str, LocalToken: "uatom", Amount: math.NewInt(6)}),
+			Act("addRemoteTokenMessenger(8) by A0", &cctptypes.MsgAddRemoteTokenMessenger{From: Owner.Str, DomainId: 8, Address: distinct32(0xE1)}),
+			Act("linkTokenPair(5,F0) by A3", &cctptypes.MsgLinkTokenPair{From: TokenCtl.Str, RemoteDomain: 5, RemoteToken: distinct32(0xF0), LocalToken: "uusdc"}),
+		},
+	}
 }
